@@ -101,6 +101,11 @@ CLAIMS["C10"] = dict(
     note="Jinja2 rendering, jsonschema validation and json.loads are third-party engines (assumed). The bounded part (17 single-rule violations, optional-property drops, include depth <= 2) is not counted as proved.",
     design="§4 C10",
 )
+CLAIMS["C14"] = dict(
+    text="Proofs over ghost traces of file-system / network events (every os.*, open, fetch, decompress effect is an event): net.download touches the final name exactly once, by renaming <file>.tmp after its size was verified, and removes the temporary file on ANY failure incl. BaseException; download_http makes <= 11 attempts, retries only protocol errors / read timeouts with one sleep(5) between, re-raises the last error; _download_http stores a body only for a 2xx answer; Downloader / Decompressor return only after the file exists with the declared size and otherwise raise DataError / SystemSetupError (offline: without touching the network); prepare_document_set / prepare_bundled_document_set (loop invariant over the event history) return only after the document file was seen with the declared size and the offset table was built for the declared number of lines, decompress only an archive seen with its declared size, download only to the archive / document path; create_file_offset_table removes the table of a rejected file; io.decompress dispatches every supported extension to exactly one decompressor with the matching library fallback and rejects unknown ones; prepare_file_offset_table writes one entry (50000 j, tell() after line 50000 j) per 50000 lines under a temporary name and moves it into place only when complete; find_closest_offset / skip_lines seek to a table entry (L, o) with L <= n and read exactly n - L more lines. BOUNDED stand-in (labelled bounded): real files for offset table == line-by-line skipping incl. multi-byte content, interrupted table builds at every byte, 8 archive formats x 5 faults, 12 download scenarios against a local misbehaving HTTP server.",
+    note="Assumed: the listed outcomes of os / urllib3 / archive-library calls; text-mode tell() is a byte offset (bounded check only); a table file under the final name is well-formed (two fields per line) because it is only moved there when complete. Not decided: termination of the preparation loop; contents of decompressed bytes (library behaviour, bounded round trips only). One genuine defect (an interrupted table build left a truncated table that was accepted as valid) was found by the bounded part and repaired by a fix: commit.",
+    design="§4 C14",
+)
 NA_DEFAULT = "check not built yet in this revision (the framework is under construction; see DESIGN.md §6b build order)"
 checks = []
 for p in props:
